@@ -200,6 +200,11 @@ def merge_val(c, a, b):
         nb_ = b.null if b.null is not None else z3.BoolVal(False)
         return ObjRef(b.name, b.cls, z3.If(c, z3.BoolVal(True), nb_))
     if isinstance(a, (Opaque, VoidV)) and isinstance(b, (Opaque, VoidV)):
+        if isinstance(a, Opaque) and isinstance(b, Opaque) and a.what != b.what and (a.what.startswith('string:') or b.what.startswith('string:') or getattr(a, 'choice', None) or getattr(b, 'choice', None)):
+            # two different texts: keep both with the condition (a unit may care which text is printed: "Aborted." / "Finished.")
+            m = Opaque(a.what)
+            m.choice = (c, a, b)
+            return m
         return a
     return None
 
